@@ -85,11 +85,14 @@ pub struct Corpus {
     pub dict_argv: Vec<String>,
     /// prefix-like literals ("O2O_"): combined with the upper-cased type names of a world's inputs
     pub dict_env_prefixes: Vec<String>,
+    /// identifier-like string literals of the sources that are NOT part of the DSL this
+    /// generator knows: keywords a change may have added (instructions, parameters)
+    pub dict_keywords: Vec<String>,
 }
 
 /// A dictionary in the fuzzing sense, taken from the working tree under test: whatever the
 /// expander compares its surroundings against is written somewhere in its sources.
-fn source_dictionary(repo: &Path) -> (Vec<String>, Vec<String>, Vec<String>) {
+fn source_dictionary(repo: &Path) -> (Vec<String>, Vec<String>, Vec<String>, Vec<String>) {
     let mut lits: Vec<String> = Vec::new();
     fn walk(ts: TokenStream, out: &mut Vec<String>) {
         for t in ts {
@@ -145,7 +148,19 @@ fn source_dictionary(repo: &Path) -> (Vec<String>, Vec<String>, Vec<String>) {
     argv.truncate(32);
     let mut pre: Vec<String> = prefixes.iter().map(|s| (*s).clone()).collect();
     pre.truncate(8);
-    (env, argv, pre)
+    // snake_case words the generator has no rule for
+    const KNOWN: [&str; 64] = [
+        "owned_into", "ref_into", "into", "from_owned", "from_ref", "from", "map_owned", "map_ref", "map", "owned_into_existing", "ref_into_existing", "into_existing", "owned_try_into", "ref_try_into", "try_into", "try_from_owned", "try_from_ref", "try_from", "try_map_owned", "try_map_ref", "try_map",
+        "owned_try_into_existing", "ref_try_into_existing", "try_into_existing", "ghosts", "ghosts_ref", "ghosts_owned", "ghost", "ghost_ref", "ghost_owned", "child_parents", "where_clause", "children", "child", "parent", "as_type", "literal", "pattern", "repeat", "skip_repeat", "stop_repeat", "type_hint", "allow_unknown", "vars", "update",
+        "quick_return", "default_case", "attribute", "impl_attribute", "inner_attribute", "permeate", "doc", "o2o", "value", "self", "other", "obj", "syn", "syn2", "Unit", "unknown", "none", "true", "false",
+    ];
+    let mut kw: Vec<String> = lits
+        .iter()
+        .filter(|s| s.len() >= 3 && s.len() <= 40 && s.chars().next().map(|c| c.is_ascii_lowercase()).unwrap_or(false) && s.chars().all(|c| c.is_ascii_lowercase() || c.is_ascii_digit() || c == '_') && !KNOWN.contains(&s.as_str()))
+        .cloned()
+        .collect();
+    kw.truncate(24);
+    (env, argv, pre, kw)
 }
 
 pub fn load(repo: &Path) -> Corpus {
@@ -215,6 +230,6 @@ pub fn load(repo: &Path) -> Corpus {
             }
         }
     }
-    let (dict_env, dict_argv, dict_env_prefixes) = source_dictionary(repo);
-    Corpus { items, files, from_tests_dir, from_unit_tests, from_docs, dict_env, dict_argv, dict_env_prefixes }
+    let (dict_env, dict_argv, dict_env_prefixes, dict_keywords) = source_dictionary(repo);
+    Corpus { items, files, from_tests_dir, from_unit_tests, from_docs, dict_env, dict_argv, dict_env_prefixes, dict_keywords }
 }
